@@ -101,16 +101,30 @@ BOUNDS = {
 }
 
 MAX_LIVE = 3
+ARG_SUB = "C06.transform.argument_combinations"
+UNITS = (-50, 50)        # unit-of-length deviations: every coordinate of the producer's meshes times 2**-50 / 2**50 (exact)
 ORIG = (1, 0, -1)
 GORIG = (1, 2, -1)
-TVEC = {"T0": (Fr(1), Fr(0), Fr(0)), "T0n": (Fr(-1), Fr(0), Fr(0)),
-        "T1": (Fr(1, 2), Fr(-2), Fr(4)), "T1n": (Fr(-1, 2), Fr(2), Fr(-4))}
-# "@v": the origin argument is one of the mesh's own vertex objects (mesh.vertices[n // 2])
-SCALES = {"2": (Fr(2), None), "half": (Fr(1, 2), None), "2@o": (Fr(2), ORIG), "half@o": (Fr(1, 2), ORIG),
-          "2@v": (Fr(2), "own_vertex"), "half@v": (Fr(1, 2), "own_vertex")}
-XYZ = {"A": ((Fr(2), Fr(1, 2), Fr(4)), None), "Ainv": ((Fr(1, 2), Fr(2), Fr(1, 4)), None),
-       "A@o": ((Fr(2), Fr(1, 2), Fr(4)), ORIG), "Ainv@o": ((Fr(1, 2), Fr(2), Fr(1, 4)), ORIG),
-       "A@v": ((Fr(2), Fr(1, 2), Fr(4)), "own_vertex")}
+_T = {"T0": (Fr(1), Fr(0), Fr(0)), "T0n": (Fr(-1), Fr(0), Fr(0)),
+      "T1": (Fr(1, 2), Fr(-2), Fr(4)), "T1n": (Fr(-1, 2), Fr(2), Fr(-4))}
+# translation argument: key -> (vector | "own_vertex", form); form "vec" = mouette.Vec, "arr" = plain numpy array;
+# "V": the argument is one of the mesh's own vertex objects (mesh.vertices[n // 2])
+TVEC = {k: (v, "vec") for k, v in _T.items()}
+TVEC.update({k + "~a": (v, "arr") for k, v in _T.items()})
+TVEC["V"] = ("own_vertex", "vec")
+# origin argument: "" omitted, "@o" a fresh Vec, "@z" a fresh Vec(0,0,0), "@v" one of the mesh's own vertex objects
+# (mesh.vertices[n // 2]).  Factor form: "" python float, "~i" python int, "~nf" numpy.float64, "~ni" numpy.int64,
+# "~kw" (scale_xyz) only the factors that differ from 1 are passed, by keyword
+ORIGS = {"": None, "@o": ORIG, "@z": (0, 0, 0), "@v": "own_vertex"}
+_F = {"2": Fr(2), "half": Fr(1, 2), "m1": Fr(-1), "1": Fr(1), "4": Fr(4), "quarter": Fr(1, 4)}
+_FORMS = {"2": ("", "~i", "~ni", "~nf"), "half": ("", "~nf"), "m1": ("", "~i"), "1": ("",), "4": ("", "~i"), "quarter": ("",)}
+SCALES = {f + fm + o: (_F[f], ORIGS[o], fm) for f in _F for fm in _FORMS[f] for o in ORIGS}
+_X = {"A": (Fr(2), Fr(1, 2), Fr(4)), "Ainv": (Fr(1, 2), Fr(2), Fr(1, 4)),              # three distinct factors
+      "P": (Fr(2), Fr(2), Fr(1, 2)), "Pinv": (Fr(1, 2), Fr(1, 2), Fr(2)),                # two equal factors
+      "U2": (Fr(2), Fr(2), Fr(2)), "Uh": (Fr(1, 2), Fr(1, 2), Fr(1, 2)), "Um": (Fr(-1), Fr(-1), Fr(-1)),   # three equal
+      "I": (Fr(1), Fr(1), Fr(1)), "D": (Fr(1), Fr(2), Fr(1)), "Dinv": (Fr(1), Fr(1, 2), Fr(1))}
+_XFORMS = {"U2": ("", "~i", "~ni"), "Um": ("", "~i"), "D": ("", "~kw"), "Dinv": ("", "~kw"), "I": ("", "~kw")}
+XYZ = {f + fm + o: (_X[f], ORIGS[o], fm) for f in _X for fm in _XFORMS.get(f, ("",)) for o in ORIGS}
 
 
 # ---------------------------------------------------------------------------------------------------
@@ -172,10 +186,12 @@ def rot_spec(name):
         mat = AXROT[int(key[2:])]
     else:
         mat = _generic(GANGLE if key == "g+" else -GANGLE)
-    return form, mat, (None if og == "0" else GORIG), key
+    return form, mat, {"0": None, "o": GORIG, "v": "own_vertex"}[og], key
 
 
-def rot_real(name):
+def rot_real(name, u=1.0, own=None):
+    """u = unit of length of the target mesh (the origin is a point: it is expressed in that unit);
+    own = the target's own vertex object, used when the origin form is 'v'"""
     import numpy as np
     from scipy.spatial.transform import Rotation
     from mouette import Vec
@@ -195,7 +211,9 @@ def rot_real(name):
         r = Rotation.from_rotvec(np.array([1., 2., 2.]) / 3. * ang)
         if form == "m":
             r = r.as_matrix()
-    o = None if og is None else Vec(float(og[0]), float(og[1]), float(og[2]))
+    if og == "own_vertex":
+        return r, own
+    o = None if og is None else Vec(float(og[0]) * u, float(og[1]) * u, float(og[2]) * u)
     return r, o
 
 
@@ -223,7 +241,48 @@ MENUS = {
 }
 
 
-BIG = ("icosphere1", "spherify_vertices", "dodecahedron", "cylindrify_edges", "dual_mesh.barycenter", "dual_mesh.circumcenter",
+def _recip(table, key):
+    """key of the entry with the reciprocal factor(s), the same origin and the plain float form"""
+    f, og, _ = table[key]
+    inv = (1 / f) if not isinstance(f, tuple) else tuple(1 / q for q in f)
+    return next(k for k, (f2, o2, fm2) in table.items() if f2 == inv and o2 == og and fm2 == "")
+
+
+def arg_events(which):
+    """[(event without target, its inverse or None)].  'all': the full cross product; 'core': one representative per
+    argument class (arg_class) without the form the arguments are passed in (float / int / numpy scalar / keywords /
+    Vec / ndarray / matrix / Rotation / Euler) - used for the unit-of-length deviations in the quick tier"""
+    out = []
+    for k in ("T0", "T1~a", "T1n", "T0n~a"):
+        out.append((("translate", k), ("translate", {"T0": "T0n~a", "T1~a": "T1n", "T1n": "T1", "T0n~a": "T0"}[k])))
+    out.append((("translate", "V"), None))
+    for k in SCALES:
+        out.append((("scale", k), ("scale", _recip(SCALES, k))))
+    for k in XYZ:
+        out.append((("scale_xyz", k), ("scale_xyz", _recip(XYZ, k))))
+    inv = {RZ90: RZ270, RX90: RX270, "g+": "g-"}
+    for form, key in (("m", RZ90), ("o", RZ90), ("e", RX90), ("t", RX90), ("o", "g+"), ("m", "g+")):
+        for og in ("0", "o", "v"):
+            out.append((("rotate", f"{form}:{key}:{og}"), ("rotate", f"{'m' if form != 'm' else 'o'}:{inv[key]}:{og}")))
+    for c in (True, False, "fit"):
+        out.append((("normalize", c), None))
+    out.append((("to_origin",), None))
+    for d in (0, 1, 2, "np:1", "auto"):
+        out.append((("flatten", d), None))
+    if which == "core":
+        seen, core = set(), []
+        for e1, e2 in out:
+            forms = set(FORM_NAME.values()) | {"rot=matrix", "rot=Rotation", "rot=euler_list", "rot=euler_tuple",
+                                               "t=Vec", "t=ndarray", "dim=int", "dim=numpy_int"}
+            c = (e1[0],) + tuple(x for x in arg_class(e1[:1] + (0,) + e1[1:]).split(":") if x not in forms)
+            if c not in seen:
+                seen.add(c)
+                core.append((e1, e2))
+        out = core
+    return out
+
+
+BIG = ("merge.hex_tet", "icosphere1", "spherify_vertices", "dodecahedron", "cylindrify_edges", "dual_mesh.barycenter", "dual_mesh.circumcenter",
        "merge.mixed", "icosahedron", "icosphere0")
 
 
@@ -247,6 +306,13 @@ def tasks(tier):
             out.append({"kind": "bfs", "start": [a, b], "menu": "reduced", "depth": 2})
         for n in DEEP[:4]:
             out.append({"kind": "rotsweep", "start": [n]})
+        for n in names:
+            out.append({"kind": "argsweep", "start": [n], "args": "all", "unit": 0})
+            for ue in UNITS:
+                out.append({"kind": "argsweep", "start": [n], "args": "core", "unit": ue})
+        for n in DEEP[:6]:
+            for ue in UNITS:
+                out.append({"kind": "bfs", "start": [n], "menu": "mini" if n in TWO else "reduced", "depth": 2, "unit": ue})
     else:
         deep1 = [n for n in DEEP if n not in TWO]
         for n in names:
@@ -262,6 +328,14 @@ def tasks(tier):
             out.append({"kind": "bfs", "start": [a, b], "menu": "reduced", "depth": 3})
         for n in DEEP[:12]:
             out.append({"kind": "rotsweep", "start": [n]})
+        for n in names:
+            for ue in (0,) + UNITS:
+                out.append({"kind": "argsweep", "start": [n], "args": "all", "unit": ue})
+            for ue in UNITS:
+                out.append({"kind": "bfs", "start": [n], "menu": "reduced", "depth": 2, "unit": ue})
+        for n in DEEP:
+            for ue in UNITS:
+                out.append({"kind": "bfs", "start": [n], "menu": "mini", "depth": 3, "unit": ue})
     # big searches are split by their first event (k-th shard takes the root events with index = k mod n); the shards
     # are independent searches, so a state reachable through two first events is explored in both
     split = []
@@ -278,6 +352,8 @@ def tasks(tier):
     cost = {"full": 10, "reduced": 4, "mini": 2}
 
     def weight(t):
+        if t["kind"] == "argsweep":
+            return (6 if t["args"] == "all" else 2) * (3 if any(n in TWO or n in BIG for n in t["start"]) else 1)
         if t["kind"] != "bfs":
             return 1
         w = cost[t["menu"]] ** t["depth"] * len(t["start"]) ** 2 / (t["shard"][1] if "shard" in t else 1)
@@ -291,8 +367,9 @@ def tasks(tier):
 ORDER = ["PointCloud", "PolyLine", "SurfaceMesh", "VolumeMesh"]
 
 
-def read_vertices(m):
-    """-> (list of 3-tuples of python floats | None on a malformed vertex, set of dtype names)"""
+def read_vertices(m, u=1.0):
+    """-> (list of 3-tuples of python floats | None on a malformed vertex, set of dtype names); the coordinates are
+    expressed in the unit of length u (an exact power of two: the division is exact)"""
     import numpy as np
     out, dts = [], set()
     for v in m.vertices._data:
@@ -302,7 +379,7 @@ def read_vertices(m):
             out.append(None)
         else:
             x, y, z = a.tolist()
-            out.append((float(x), float(y), float(z)))
+            out.append((float(x) / u, float(y) / u, float(z) / u))
     return out, {_DT.get(c, c) for c in dts}
 
 
@@ -318,6 +395,27 @@ def read_elements(m):
 
 
 CONTAINERS = ("vertices", "edges", "faces", "face_corners", "cells", "cell_corners", "cell_faces")
+CORNERS = ("face_corners", "cell_corners", "cell_faces")
+
+
+def read_corners(m):
+    """element side AND owner side of every corner container, as plain ints (part of the canonical form of a mesh)"""
+    out = {}
+    for nm in CORNERS:
+        c = getattr(m, nm, None)
+        if c is not None:
+            out[nm + ":element"] = [int(u) for u in c._elem]
+            out[nm + ":owner"] = [int(u) for u in c._adj]
+            out[nm + ":len"] = len(c)
+    return out
+
+
+def cells_class(el):
+    """coarse class of the cells of a mesh: none | tet | hex | tet+hex | other"""
+    ar = sorted({len(c) for c in el.get("cells") or ()})
+    if not ar:
+        return "cells=none"
+    return "cells=" + "+".join({4: "tet", 8: "hex"}.get(a, "other") for a in ar)
 
 
 def attr_digest(m):
@@ -401,6 +499,42 @@ def shifted_union(els, nverts):
     return want, starts
 
 
+CELL_FACES = {4: 4, 8: 6}
+
+
+def union_corners(z):
+    """The corner containers of a merge result describe ITS faces and cells: face corner k of face f is the k-th vertex
+    of f and is owned by f; likewise for cell corners; every (cell, face) incidence names a face whose vertices are
+    vertices of that cell, owners in non-decreasing order, 4 per tetrahedron / 6 per hexahedron (an empty cell_faces
+    container is accepted: the faces of the cells need not be there).  -> [(what differs, detail)]"""
+    el, co = read_elements(z), read_corners(z)
+    out = []
+    for cont, nm in (("face_corners", "faces"), ("cell_corners", "cells")):
+        if nm not in el:
+            continue
+        we = [v for e in el[nm] for v in e]
+        wo = [k for k, e in enumerate(el[nm]) for _ in e]
+        for side, w in (("element", we), ("owner", wo)):
+            g = co.get(cont + ":" + side)
+            if g != w:
+                out.append((cont + "_" + side, {"container": cont, "side": side, "got": g, "want": w}))
+    if "cells" in el and (co.get("cell_faces:element") or co.get("cell_faces:owner")):
+        fe, fo = co["cell_faces:element"], co["cell_faces:owner"]
+        F, C = el.get("faces", []), el["cells"]
+        okc = len(fe) == len(fo) and fo == sorted(fo) and all(0 <= f < len(F) for f in fe) and all(0 <= c < len(C) for c in fo)
+        if okc:
+            okc = all(set(F[f]) <= set(C[c]) for f, c in zip(fe, fo))
+        if okc:
+            for k, c in enumerate(C):
+                n = CELL_FACES.get(len(c))
+                mine = [f for f, o in zip(fe, fo) if o == k]
+                if n is not None and (len(mine) != n or len(set(mine)) != n):
+                    okc = False
+        if not okc:
+            out.append(("cell_faces", {"container": "cell_faces", "element": fe, "owner": fo, "cells": C}))
+    return out
+
+
 # most special first (the class named in a report is the first one found among the inputs)
 ELEMENT_CLASSES = ["edges=free_standing", "edges=incomplete", "edges=other_order", "edges=face_walk_order", "edges=no_faces",
                    "faces=free_standing", "faces=of_cells", "faces=no_cells"]
@@ -413,22 +547,24 @@ def model_map(ev, V):
     """-> (new vertex list, operation is exact on dyadic input)"""
     kind = ev[0]
     if kind == "translate":
-        t = TVEC[ev[2]]
+        t = TVEC[ev[2]][0]
+        if t == "own_vertex":
+            t = V[len(V) // 2]                       # the value of that vertex when the call is made
         return [(p[0] + t[0], p[1] + t[1], p[2] + t[2]) for p in V], True
     if kind == "rotate":
         _, mat, og, _ = rot_spec(ev[2])
-        o = og or (0, 0, 0)
+        o = V[len(V) // 2] if og == "own_vertex" else (og or (0, 0, 0))
         out = []
         for p in V:
             d = (p[0] - o[0], p[1] - o[1], p[2] - o[2])
             out.append(tuple(o[r] + mat[r][0] * d[0] + mat[r][1] * d[1] + mat[r][2] * d[2] for r in range(3)))
         return out, False
     if kind == "scale":
-        s, og = SCALES[ev[2]]
+        s, og, _ = SCALES[ev[2]]
         o = V[len(V) // 2] if og == "own_vertex" else (og or (0, 0, 0))
         return [tuple(o[r] + s * (p[r] - o[r]) for r in range(3)) for p in V], True
     if kind == "scale_xyz":
-        f, og = XYZ[ev[2]]
+        f, og, _ = XYZ[ev[2]]
         o = V[len(V) // 2] if og == "own_vertex" else (og or (0, 0, 0))   # docstring: "If not provided, it is set at (0,0,0)"
         return [tuple(o[r] + f[r] * (p[r] - o[r]) for r in range(3)) for p in V], True
     if kind == "normalize":
@@ -444,9 +580,33 @@ def model_map(ev, V):
         g = [sum(p[r] for p in V) / n for r in range(3)]
         return [tuple(p[r] - g[r] for r in range(3)) for p in V], False
     if kind == "flatten":
-        d = ev[2]
+        d = flatten_dim(ev[2], V)
         return [tuple(Fr(0) if r == d else p[r] for r in range(3)) for p in V], True
     raise AssertionError(ev)
+
+
+def variances(V):
+    n = len(V)
+    out = []
+    for r in range(3):
+        mu = sum(p[r] for p in V) / n
+        out.append(sum((p[r] - mu) ** 2 for p in V) / n)
+    return out
+
+
+def flatten_dim(spec, V):
+    """spec: 0 | 1 | 2 | 'np:<d>' (numpy integer) | 'auto' (dim omitted: 'the dimension which has the smallest
+    variance').  -> the dimension, or None when 'auto' has no clear answer (two smallest variances within 1e-6)"""
+    if spec == "auto":
+        var = variances(V)
+        order = sorted(range(3), key=lambda r: var[r])
+        a, b = var[order[0]], var[order[1]]
+        if a + Fr(1, 10 ** 6) * max(b, Fr(1, 10 ** 6)) >= b:
+            return None
+        return order[0]
+    if isinstance(spec, str):
+        return int(spec[3:])
+    return spec
 
 
 def zero_extent(V):
@@ -458,11 +618,14 @@ def is_inverse(a, b):
         return False
     k = a[0]
     if k == "translate":
-        return {a[2], b[2]} in ({"T0", "T0n"}, {"T1", "T1n"})
-    if k == "scale":
-        return {a[2], b[2]} in ({"2", "half"}, {"2@o", "half@o"})
+        ta, tb = TVEC[a[2]][0], TVEC[b[2]][0]
+        return "own_vertex" not in (ta, tb) and all(ta[r] + tb[r] == 0 for r in range(3))
+    if k == "scale":                                  # same fixed point (whatever the argument forms), s * s' = 1
+        (sa, oa, _), (sb, ob, _) = SCALES[a[2]], SCALES[b[2]]
+        return oa == ob and sa * sb == 1
     if k == "scale_xyz":
-        return {a[2], b[2]} in ({"A", "Ainv"}, {"A@o", "Ainv@o"})
+        (fa, oa, _), (fb, ob, _) = XYZ[a[2]], XYZ[b[2]]
+        return oa == ob and all(fa[r] * fb[r] == 1 for r in range(3))
     if k == "rotate":
         _, ma, oa, ka = rot_spec(a[2])
         _, mb, ob, kb = rot_spec(b[2])
@@ -484,14 +647,21 @@ CALLEE = {"translate": "transform.translate", "normalize": "transform.normalize"
 TRANSFORMS = ("translate", "rotate", "scale", "scale_xyz", "normalize", "to_origin", "flatten")
 
 
+def orig_class(og):
+    return "orig=" + ("None" if og is None else "own_vertex" if og == "own_vertex" else "zero" if tuple(og) == (0, 0, 0) else "given")
+
+
+FORM_NAME = {"": "float", "~i": "int", "~ni": "numpy_int", "~nf": "numpy_float", "~kw": "keywords"}
+
+
 def param_class(ev):
     k = ev[0]
     if k == "rotate":
         form, _, og, key = rot_spec(ev[2])
         return "rot=" + {"m": "matrix", "o": "Rotation", "e": "euler_list", "t": "euler_tuple"}[form] + \
-               (":generic" if key[0] == "g" else ":axis") + (":orig=given" if og else ":orig=None")
+               (":generic" if key[0] == "g" else ":axis") + ":" + orig_class(og)
     if k in ("scale", "scale_xyz"):
-        return "orig=given" if ev[2].endswith("@o") else ("orig=own_vertex" if ev[2].endswith("@v") else "orig=None")
+        return orig_class((SCALES if k == "scale" else XYZ)[ev[2]][1])
     if k == "normalize":
         return "fit_into_unit_cube" if ev[2] == "fit" else "center_at_zero=%s" % ev[2]
     if k == "flatten":
@@ -499,9 +669,29 @@ def param_class(ev):
     return "any"
 
 
+def arg_class(ev):
+    """coarse class of the ARGUMENTS of a transform call (argument sweep): how the factors relate to each other, the
+    form each argument is passed in, the form of the origin"""
+    k = ev[0]
+    if k == "translate":
+        t, form = TVEC[ev[2]]
+        return "t=own_vertex" if t == "own_vertex" else "t=" + {"vec": "Vec", "arr": "ndarray"}[form]
+    if k == "scale":
+        s, og, fm = SCALES[ev[2]]
+        return "factor=" + ("identity" if s == 1 else "negative" if s < 0 else "positive") + ":" + FORM_NAME[fm] + ":" + orig_class(og)
+    if k == "scale_xyz":
+        f, og, fm = XYZ[ev[2]]
+        rel = "identity" if set(f) == {Fr(1)} else {1: "all_equal", 2: "two_equal", 3: "distinct"}[len(set(f))]
+        return "factors=" + rel + ":" + FORM_NAME[fm] + ":" + orig_class(og)
+    if k == "flatten":
+        return "dim=" + ("omitted" if ev[2] == "auto" else "numpy_int" if isinstance(ev[2], str) else "int")
+    return param_class(ev)
+
+
 # ---------------------------------------------------------------------------------------------------
 class Live:
-    __slots__ = ("real", "label", "kind", "parents", "V", "el", "mtype", "exact", "tol", "attrs", "blocks")
+    __slots__ = ("real", "label", "kind", "parents", "V", "el", "mtype", "exact", "tol", "attrs", "blocks", "ue", "corners")
+    # ue: the unit of length of this mesh is 2**ue - the model V and every coordinate read back are expressed in it
 
 
 class Caller:
@@ -523,9 +713,10 @@ class St:
 
 def sync(L):
     """model := real (used for meshes handed out by a producer, and after a reported violation)"""
-    rv, dts = read_vertices(L.real)
+    rv, dts = read_vertices(L.real, 2.0 ** L.ue)
     L.V = [None if p is None else frs(p) for p in rv]
     L.el = read_elements(L.real)
+    L.corners = read_corners(L.real)
     L.attrs = attr_digest(L.real)
     L.mtype = type(L.real).__name__
     if "float32" in dts:
@@ -541,15 +732,49 @@ def sync_all(st):
         c.snap = c.arr.copy()
 
 
+def change_unit(b, ue):
+    """Unit-of-length deviation: every coordinate of every mesh the producer handed out is multiplied by 2**ue -
+    exactly, in place, each block of memory once - so the storage layout (who shares what, including a caller array
+    the mesh is a view of) stays the producer's.  -> False (nothing done) when a vertex is not held in a writeable
+    numpy array or when integer storage cannot hold the result"""
+    import numpy as np
+    blocks, seen = [], set()
+    for m, _ in b.meshes:
+        for v in m.vertices._data:
+            if not isinstance(v, np.ndarray):
+                return False
+            blocks.append(v)
+    # one multiplication per base buffer: views of one buffer (a caller array and the rows stored in the mesh, two
+    # vertex slots holding one object) are handled through the buffer's owner
+    bases = []
+    for a in blocks:
+        base = a
+        while isinstance(base.base, np.ndarray):
+            base = base.base
+        if id(base) not in seen:
+            seen.add(id(base))
+            bases.append(base)
+    if any(x.dtype.kind not in "fi" or not x.flags.writeable or (x.dtype.kind == "i" and ue < 0) for x in bases):
+        return False
+    for x in bases:
+        if x.dtype.kind == "f":
+            x *= x.dtype.type(2.0 ** ue)
+        else:
+            x *= 2 ** ue
+    return True
+
+
 def make(task, ctx):
     from mc.c06_producers import PRODUCERS
     st = St()
+    ue = int(task.get("unit", 0))
     for name in task["start"]:
         b = PRODUCERS[name](ctx)
+        mue = ue if (ue and change_unit(b, ue)) else 0          # not applicable: this producer stays at unit 1
         off = len(st.live)
         for m, label in b.meshes:
             L = Live()
-            L.real, L.label, L.kind, L.parents, L.tol, L.blocks = m, label, "base", [], 1e-9, None
+            L.real, L.label, L.kind, L.parents, L.tol, L.blocks, L.ue = m, label, "base", [], 1e-9, None, mue
             sync(L)
             st.live.append(L)
         for i, j, label in b.links:
@@ -567,7 +792,7 @@ def make(task, ctx):
 
 def state_key(st):
     body = canon([L.real for L in st.live], [c.arr for c in st.callers], skip_attrs=("type",))
-    mod = tuple((L.label, L.kind, tuple(L.parents), L.exact, L.tol, L.mtype, tuple(L.V),
+    mod = tuple((L.label, L.kind, tuple(L.parents), L.exact, L.tol, L.mtype, L.ue, tuple(L.V),
                  tuple(sorted((k, tuple(v)) for k, v in L.el.items()))) for L in st.live)
     k = (body, mod)
     return (hash(k), hash((k, 1)))
@@ -751,9 +976,24 @@ class Run:
         self.menu = MENUS[task.get("menu", "full")]
         self.hist = ()
         self.reported = {}
+        self.ue = int(task.get("unit", 0))
+        self.is_argsweep = task["kind"] == "argsweep"
+        self.arg_buffer = None       # argument sweep: reports of the sweep's own clause are summarised at its end
+        self.arg_tested = {}         # transform kind -> set of argument classes exercised
+
+    def pclass(self, ev):
+        return arg_class(ev) if self.is_argsweep else param_class(ev)
+
+    def map_sub(self):
+        return ARG_SUB if self.is_argsweep else "C06.transform.map"
 
     # -- reporting -------------------------------------------------------------------------------
     def viol(self, sub, callee, kind, icls, detail):
+        if sub == ARG_SUB and self.arg_buffer is not None:
+            self.arg_buffer.append((callee, kind, icls, dict(detail, history=[list(e) for e, _ in self.hist])))
+            return
+        if self.ue:                                  # unit-of-length deviation: coarse class of the magnitude
+            icls += ":unit=2^%+d" % self.ue
         fp = (sub, callee, kind, icls)
         c = self.reported.get(fp, 0)
         self.reported[fp] = c + 1
@@ -761,6 +1001,8 @@ class Run:
             self.rep.fp_counts[fp] = self.rep.fp_counts.get(fp, 0) + 1      # counted, detail not repeated
             return
         d = {"start": self.task["start"], "history": [list(e) for e, _ in self.hist]}
+        if self.ue:
+            d["unit"] = "the producer's coordinates were multiplied by 2**%d before the history" % self.ue
         d.update(detail)
         self.rep.violation(sub, callee, kind, icls, d)
 
@@ -812,7 +1054,7 @@ class Run:
         for y, L in enumerate(st.live):
             if y in skip:
                 continue
-            rv, _ = read_vertices(L.real)
+            rv, _ = read_vertices(L.real, 2.0 ** L.ue)
             if len(rv) != len(L.V):
                 cnt.append((y, len(rv), len(L.V)))
                 continue
@@ -872,6 +1114,8 @@ class Run:
             return None
         X.V, exact_op = model_map(ev, X.V)
         X.exact = bool(X.exact and exact_op and all(small_dyadic(c) for p in X.V for c in p))
+        if ev[0] == "normalize":
+            X.ue = 0
         mism, cnt = self.diff_vertices(st2, count=False)
         if cnt:
             return None
@@ -896,6 +1140,15 @@ class Run:
             if el != L.el:
                 self.viol(f"C06.{kind}.elements", callee, "side_effect:elements_changed", "producer=" + L.label,
                           {"event": list(ev), "mesh": y, "got": el, "want": L.el})
+                bad = True
+            co = read_corners(L.real)
+            rep.evaluations += 1
+            if co != L.corners and not (kind in ("copy", "merge") and y in targets):     # (a new mesh has its own clause)
+                keys = sorted(k for k in set(co) | set(L.corners) if co.get(k) != L.corners.get(k))
+                self.viol(f"C06.{kind}.corners" if kind not in TRANSFORMS else "C06.transform.corners", callee,
+                          "side_effect:corner_containers_changed", keys[0].split(":")[0] + ":" + cells_class(L.el),
+                          {"event": list(ev), "mesh": y, "mesh_producer": L.label, "differ": keys,
+                           "got": {k: co.get(k) for k in keys}, "want": {k: L.corners.get(k) for k in keys}})
                 bad = True
             dg = attr_digest(L.real)
             if dg != L.attrs:
@@ -939,7 +1192,7 @@ class Run:
             elif keep is None or (y, j) in keep:
                 det["same_result_when_every_vertex_has_its_own_storage"] = True
                 if y == tgt:
-                    fp = ("C06.transform.map", callee, "mismatch:coordinates", param_class(ev))
+                    fp = (self.map_sub(), callee, "mismatch:coordinates", self.pclass(ev))
                 else:
                     fp = ("C06.transform.isolation", callee, "side_effect:other_mesh_changed", "no_shared_storage")
             else:
@@ -1011,40 +1264,76 @@ class Run:
             sync_all(st)
         return bad
 
-    def _real_args(self, ev, X=None):
+    @staticmethod
+    def _factor(q, form):
+        """the scale factor q (a Fraction) in the requested argument form"""
+        import numpy as np
+        if form == "~i":
+            return int(q)
+        if form == "~ni":
+            return np.int64(int(q))
+        if form == "~nf":
+            return np.float64(float(q))
+        return float(q)
+
+    def _real_args(self, ev, X):
+        """-> (positional, keywords, [(argument object, its expected value after the call)]).  Points and vectors are
+        expressed in the unit of length of the target mesh; factors and rotations have no unit"""
+        import numpy as np
         from mouette import Vec
         kind = ev[0]
-        if kind in ("scale", "scale_xyz") and str(ev[2]).endswith("@v"):
-            o = X.real.vertices[len(X.real.vertices) // 2]          # the mesh's own vertex object as origin
-            if kind == "scale":
-                return (float(SCALES[ev[2]][0]), o), {}, []
-            f = XYZ[ev[2]][0]
-            return (float(f[0]), float(f[1]), float(f[2]), o), {}, []
+        u = 2.0 ** X.ue
+
+        def own():
+            return X.real.vertices[len(X.real.vertices) // 2]      # the mesh's own vertex object
+
+        def origin(og):
+            """-> (argument or None, watch list)"""
+            if og is None:
+                return None, []
+            if og == "own_vertex":
+                return own(), []
+            o = Vec(float(og[0]) * u, float(og[1]) * u, float(og[2]) * u)
+            return o, [(o, [float(c) * u for c in og])]
+
         if kind == "translate":
-            t = TVEC[ev[2]]
-            v = Vec(float(t[0]), float(t[1]), float(t[2]))
-            return (v,), {}, [(v, [float(c) for c in t])]
+            t, form = TVEC[ev[2]]
+            if t == "own_vertex":
+                return (own(),), {}, []
+            want = [float(c) * u for c in t]
+            v = Vec(*want) if form == "vec" else np.array(want, dtype=float)
+            return (v,), {}, [(v, want)]
         if kind == "rotate":
-            r, o = rot_real(ev[2])
-            return (r,) if o is None else (r, o), {}, ([] if o is None else [(o, [float(c) for c in GORIG])])
+            r, o = rot_real(ev[2], u, own() if rot_spec(ev[2])[2] == "own_vertex" else None)
+            og = rot_spec(ev[2])[2]
+            watch = [] if og in (None, "own_vertex") else [(o, [float(c) * u for c in og])]
+            return ((r,) if o is None else (r, o)), {}, watch
         if kind == "scale":
-            s, og = SCALES[ev[2]]
-            if og is None:
-                return (float(s),), {}, []
-            o = Vec(float(og[0]), float(og[1]), float(og[2]))
-            return (float(s), o), {}, [(o, [float(c) for c in og])]
+            s_, og, form = SCALES[ev[2]]
+            o, watch = origin(og)
+            f = self._factor(s_, form)
+            return ((f,) if o is None else (f, o)), {}, watch
         if kind == "scale_xyz":
-            f, og = XYZ[ev[2]]
-            if og is None:
-                return (float(f[0]), float(f[1]), float(f[2])), {}, []
-            o = Vec(float(og[0]), float(og[1]), float(og[2]))
-            return (float(f[0]), float(f[1]), float(f[2]), o), {}, [(o, [float(c) for c in og])]
+            f, og, form = XYZ[ev[2]]
+            o, watch = origin(og)
+            if form == "~kw":
+                kw = {n: float(q) for n, q in zip(("fx", "fy", "fz"), f) if q != 1}
+                if o is not None:
+                    kw["orig"] = o
+                return (), kw, watch
+            fa = tuple(self._factor(q, form) for q in f)
+            return (fa if o is None else fa + (o,)), {}, watch
         if kind == "normalize":
             return (), ({} if ev[2] == "fit" else {"center_at_zero": ev[2]}), []
         if kind == "to_origin":
             return (), {}, []
         if kind == "flatten":
-            return (ev[2],), {}, []
+            d = ev[2]
+            if d == "auto":
+                return (), {}, []
+            if isinstance(d, str):
+                return (np.int64(int(d[3:])),), {}, []
+            return (d,), {}, []
         raise AssertionError(ev)
 
     def _transform(self, st, ev, check):
@@ -1053,9 +1342,11 @@ class Run:
         kind, i = ev[0], ev[1]
         X = st.live[i]
         fn = self._fn(kind, ev)
-        before, _ = read_vertices(X.real)
+        before, _ = read_vertices(X.real, 2.0 ** X.ue)
         pre = [[vptr(v) for v in L.real.vertices] for L in st.live] if check else None
         a, kw, watch = self._real_args(ev, X)
+        if check and self.is_argsweep:
+            self.arg_tested.setdefault(CALLEE[kind], set()).add(arg_class(ev))
         o = call(fn, X.real, *a, **kw)
         prev = st.prev
         st.prev = (ev, before, False)
@@ -1063,6 +1354,10 @@ class Run:
             if check:
                 rep.outcome(kind, "raises:" + o.exc)
                 _, dts = read_vertices(X.real)
+                if self.is_argsweep:
+                    self.viol(ARG_SUB, CALLEE[kind], "raises:" + o.exc, arg_class(ev),
+                              {"event": list(ev), "mesh_producer": X.label, "msg": o.msg})
+                    return True
                 icls = "vertex_dtype=integer" if any(d.startswith("int") for d in dts) else "producer=" + X.label
                 self.viol("C06.transform.answers", PRIMITIVE[kind], "raises:" + o.exc, icls,
                           {"event": list(ev), "mesh_producer": X.label, "msg": o.msg})
@@ -1072,21 +1367,25 @@ class Run:
         newV, exact_op = model_map(ev, X.V)
         X.V = newV
         X.exact = bool(X.exact and exact_op and all(small_dyadic(c) for p in newV for c in p))
+        if kind == "normalize":
+            X.ue = 0                                 # a normalised mesh has no unit: its box is [-1,1]^3 / [0,1]^3
         if not check:
             return False
         rep.flag("event:" + kind)
+        if self.is_argsweep:
+            rep.flag("args:%s:%s" % (kind, arg_class(ev)))
         rep.count("transform_events")
         bad = self.compare_all(st, ev, [i], pre=pre)
         for arr, want in watch:
             if [float(c) for c in arr] != want:
-                self.viol("C06.transform.isolation", CALLEE[kind], "side_effect:argument_changed", param_class(ev),
+                self.viol("C06.transform.isolation", CALLEE[kind], "side_effect:argument_changed", self.pclass(ev),
                           {"event": list(ev), "now": [float(c) for c in arr], "was": want})
                 bad = True
         rep.outcome(kind, "violation" if bad else ("returns_same_object" if o.value is X.real else "returns_other_object"))
         if bad:
             return True
         st.prev = (ev, before, True)
-        after, _ = read_vertices(X.real)
+        after, _ = read_vertices(X.real, 2.0 ** X.ue)
         if kind == "normalize":
             rep.evaluations += 1
             rep.count("normalize_box_checks")
@@ -1099,7 +1398,7 @@ class Run:
             else:
                 okb = abs(ext - 1) <= tol and all(abs(mn[r]) <= tol for r in range(3))
             if not okb:
-                self.viol("C06.normalize.box", CALLEE[kind], "mismatch:bounding_box", param_class(ev),
+                self.viol("C06.normalize.box", CALLEE[kind], "mismatch:bounding_box", self.pclass(ev),
                           {"event": list(ev), "min": mn, "max": mx, "mesh_producer": X.label})
                 return True
         if prev is not None and prev[2] and is_inverse(prev[0], ev):
@@ -1112,7 +1411,7 @@ class Run:
                 same = len(after) == len(was) and all(
                     abs(p[r] - q[r]) <= 10 * X.tol * max(1.0, abs(q[r])) for p, q in zip(after, was) for r in range(3))
             if not same:
-                self.viol("C06.transform.inverse_pair", CALLEE[kind], "mismatch:not_restored", param_class(ev),
+                self.viol("C06.transform.inverse_pair", CALLEE[kind], "mismatch:not_restored", self.pclass(ev),
                           {"events": [list(prev[0]), list(ev)], "before": was, "after": after, "mesh_producer": X.label})
                 return True
         return False
@@ -1138,6 +1437,7 @@ class Run:
     def _new_live(self, st, real, kind, parents, label):
         L = Live()
         L.real, L.label, L.kind, L.parents, L.blocks = real, label, kind, list(parents), None
+        L.ue = max(st.live[p].ue for p in parents)   # a merge of meshes of different units is read in the largest one
         L.tol = max(st.live[p].tol for p in parents)
         sync(L)                                      # elements / attributes / class as observed; V and exact set by the caller
         L.tol = max(L.tol, max(st.live[p].tol for p in parents))
@@ -1187,6 +1487,18 @@ class Run:
                       {"event": list(ev), "mesh_producer": X.label, "source": se, "copy": ce})
             bad = True
             L.el = se
+        # every container, element side and owner side (the canonical form of a mesh), whatever the kind of cells
+        sc, cc_ = read_corners(X.real), read_corners(c)
+        rep.evaluations += 1
+        rep.count("copy_container_checks")
+        rep.flag("copy:" + cells_class(se))
+        if sc != cc_:
+            keys = sorted(k for k in set(sc) | set(cc_) if sc.get(k) != cc_.get(k))
+            self.viol("C06.copy.equal_containers", "mesh.copy", "mismatch:" + keys[0].replace(":", "_"),
+                      cells_class(se) + f":copy_attributes={ca}",
+                      {"event": list(ev), "mesh_producer": X.label, "differ": keys,
+                       "source": {k: sc.get(k) for k in keys}, "copy": {k: cc_.get(k) for k in keys}})
+            bad = True
         if ca and attr_digest(c) != attr_digest(X.real):
             self.viol("C06.copy.equal", "mesh.copy", "mismatch:attributes", flags,
                       {"event": list(ev), "mesh_producer": X.label,
@@ -1269,8 +1581,8 @@ class Run:
         z = o.value
         want, starts = shifted_union([x.el for x in ins], [len(x.V) for x in ins])
         L = self._new_live(st, z, "merge", idxs, "merge")
-        L.V = [p for x in ins for p in x.V]
-        L.exact = all(x.exact for x in ins)
+        L.V = [p if (p is None or x.ue == L.ue) else tuple(c * Fr(2) ** (x.ue - L.ue) for c in p) for x in ins for p in x.V]
+        L.exact = all(x.exact for x in ins) and all(p is not None and all(small_dyadic(c) for c in p) for p in L.V)
         L.blocks = starts
         if not check:
             return False
@@ -1290,6 +1602,13 @@ class Run:
         bad, vbad = self.check_union(z, ins, ev, icls, want, want_type, wv)
         if vbad:
             skip = (new,)
+        rep.evaluations += 1
+        rep.count("merge_corner_checks")
+        for why, det in union_corners(z):
+            self.viol("C06.merge.union_corners", "mesh.merge", "mismatch:" + why,
+                      cells_class(read_elements(z)) + ":" + shape,
+                      dict(det, event=list(ev), producers=[x.label for x in ins]))
+            bad = True
         # ---- the same merge under the other settings of the completion switches (result not kept live)
         for cfgname, ce, cf in MERGE_CFGS[1:]:
             if not any(("cells" if not cf else "faces") in x.el for x in ins):
@@ -1463,6 +1782,71 @@ class Run:
                           "shared=" + path_tops(paths),
                           {"derived_mesh": b[1], "source_mesh": a[1], "producer": lab, "shared_paths_in_source": paths[:10]})
 
+    def excluded(self, st, ev):
+        """inputs the statement does not cover, decided exactly on the model (counted)"""
+        V = st.live[ev[1]].V if ev[0] in TRANSFORMS else None
+        if V is None:
+            return False
+        if any(p is None for p in V):
+            return False
+        if ev[0] == "normalize" and zero_extent(V):
+            self.rep.count("filtered_zero_extent")
+            return True
+        if ev[0] == "flatten" and flatten_dim(ev[2], V) is None:
+            self.rep.count("filtered_no_smallest_variance")
+            return True
+        return False
+
+    def argsweep(self):
+        """Depth-1 sweep over the ARGUMENTS: every transform with every combination of its arguments in ARG_EVENTS
+        (factors equal / two equal / distinct / identity / negative x passed as float / int / numpy scalar / keywords x
+        origin omitted / given / zero / the mesh's own vertex; translation as Vec / ndarray / own vertex; rotation in 4
+        forms x 3 origins; flatten with dim given / numpy int / omitted; both normalisations), each on a fresh mesh,
+        checked pointwise against the reference map and followed by its inverse where there is one."""
+        rep = self.rep
+        n = 0
+        st0 = make(self.task, self.ctx)
+        targets = sorted({0, len(st0.live) - 1})
+        self.initial_checks(st0)
+        self.arg_buffer = []
+        for i in targets:
+            for k1, k2 in arg_events(self.task.get("args", "all")):
+                st = make(self.task, self.ctx)
+                e1 = (k1[0], i) + tuple(k1[1:])
+                if self.excluded(st, e1):
+                    continue
+                self.hist = ((e1, False),)
+                b1 = self.apply(st, e1, True)
+                n += 1
+                rep.case((tuple(self.task["start"]), self.ue, e1))
+                if k2 is None or b1:
+                    continue
+                e2 = (k2[0], i) + tuple(k2[1:])
+                self.hist = ((e1, b1), (e2, False))
+                self.apply(st, e2, True)
+                n += 1
+        rep.transitions += n
+        rep.traces += n
+        rep.states += n
+        rep.count("argsweep_events", n)
+        # ---- one report per (callee, kind of failure): the class says, argument by argument, which of the exercised
+        # values fail ("any" when all of them do)
+        buf, self.arg_buffer = self.arg_buffer, None
+        groups = {}
+        for callee, kind, icls, det in buf:
+            groups.setdefault((callee, kind), []).append((icls, det))
+        for (callee, kind), items in sorted(groups.items()):
+            failing = [c.split(":") for c, _ in items]
+            tested = [c.split(":") for c in self.arg_tested.get(callee, ())] or failing
+            toks = []
+            for pos in range(len(failing[0])):
+                F = {c[pos] for c in failing if len(c) > pos}
+                T = {c[pos] for c in tested if len(c) > pos}
+                toks.append("any" if (F == T and len(T) > 1) else "|".join(sorted(F)))
+            det = dict(items[0][1], failing_argument_classes=sorted({c for c, _ in items})[:24])
+            self.hist = tuple((tuple(e), False) for e in det.pop("history"))
+            self.viol(ARG_SUB, callee, kind, ":".join(toks), det)
+
     def explore(self):
         rep = self.rep
         depth = self.task["depth"]
@@ -1485,8 +1869,7 @@ class Run:
             for ev in evs:
                 if not fresh:
                     st = self.replay(hist)
-                if ev[0] == "normalize" and zero_extent(st.live[ev[1]].V):
-                    rep.count("filtered_zero_extent")
+                if self.excluded(st, ev):
                     fresh = True
                     continue
                 self.hist = hist + ((ev, False),)
@@ -1499,7 +1882,7 @@ class Run:
                 seen.add(k1)
                 states += 1
                 newh = hist + ((ev, bad),)
-                rep.case((tuple(self.task["start"]), tuple(e for e, _ in newh)))
+                rep.case((tuple(self.task["start"]), self.ue, tuple(e for e, _ in newh)))
                 if len(st.live) == MAX_LIVE:
                     rep.flag("live=3")
                 if len(newh) == 3:
@@ -1559,8 +1942,15 @@ def run_task(task, rep: Report):
             for n in task["start"]:
                 rep.flag("producer:" + n)
             rep.count("bfs_tasks")
+        elif task["kind"] == "argsweep":
+            r.argsweep()
+            rep.flag("argsweep:%s:unit=%d" % (task["args"], task.get("unit", 0)))
+            rep.count("argsweep_tasks")
         else:
             r.rotsweep()
+        if task.get("unit"):
+            rep.flag("unit:%d" % task["unit"])
+            rep.count("unit_deviation_tasks")
     finally:
         cfg.complete_edges_from_faces, cfg.complete_faces_from_cells = switches
         shutil.rmtree(d, ignore_errors=True)
@@ -1573,8 +1963,10 @@ def finish(tier, rep: Report):
     ran = rep.counters.get("bfs_tasks", 0)
     if ran < len(PRODUCERS) or sum(1 for f in rep.flags if f.startswith("producer:")) < len(PRODUCERS):
         return fails                                     # --only run: the guards below are about the full sweep
-    if len(PRODUCERS) != 69:
-        fails.append(f"producer registry has {len(PRODUCERS)} entries, pinned count is 69")
+    if len(PRODUCERS) != 74:
+        fails.append(f"producer registry has {len(PRODUCERS)} entries, pinned count is 74")
+    if rep.counters.get("argsweep_tasks", 0) < 3 * len(PRODUCERS):
+        fails.append("argument sweep did not run on every producer at every unit")
     for n in PRODUCERS:
         if "producer:" + n not in rep.flags:
             fails.append("producer never explored: " + n)
@@ -1586,12 +1978,20 @@ def finish(tier, rep: Report):
               "copy:copy_attributes=True,copy_connectivity=True", "copy:copy_attributes=False,copy_connectivity=False",
               "merge_cfg:complete_edges_from_faces=False", "merge_cfg:complete_faces_from_cells=False",
               "merge_input:edges=free_standing", "merge_input:edges=other_order", "merge_input:edges=face_walk_order",
-              "merge_input:edges=no_faces", "merge_input:faces=free_standing", "merge_input:faces=of_cells"):
+              "merge_input:edges=no_faces", "merge_input:faces=free_standing", "merge_input:faces=of_cells",
+              "copy:cells=none", "copy:cells=tet", "copy:cells=hex", "copy:cells=tet+hex",
+              "args:scale_xyz:factors=all_equal:float:orig=given", "args:scale_xyz:factors=all_equal:int:orig=own_vertex",
+              "args:scale_xyz:factors=distinct:float:orig=None", "args:scale_xyz:factors=two_equal:float:orig=zero",
+              "args:scale_xyz:factors=identity:keywords:orig=given", "args:scale:factor=negative:int:orig=given",
+              "args:scale:factor=positive:numpy_int:orig=own_vertex", "args:translate:t=ndarray", "args:translate:t=own_vertex",
+              "args:flatten:dim=omitted", "args:flatten:dim=numpy_int", "args:rotate:rot=euler_tuple:axis:orig=own_vertex",
+              "args:normalize:fit_into_unit_cube") + tuple("unit:%d" % u for u in UNITS):
         if f not in rep.flags:
             fails.append("coverage flag missing: " + f)
     for c in ("exact_comparisons", "inverse_pair_checks", "normalize_box_checks", "rotsweep_histories", "transform_events",
               "merge_shared_state_checks", "merge_cfg_variants", "producer_link_checks", "edit_rows_rebound",
-              "edit_rows_assigned:list", "edit_rows_assigned:ndarray"):
+              "edit_rows_assigned:list", "edit_rows_assigned:ndarray", "argsweep_events", "copy_container_checks",
+              "merge_corner_checks", "unit_deviation_tasks"):
         if rep.counters.get(c, 0) == 0:
             fails.append("never evaluated: " + c)
     if not any(f.startswith("merge:") and "+" in f for f in rep.flags):
